@@ -72,7 +72,7 @@ package message
 
 //@ pred encInv(m) = msgInv(m) && viewLen(m) <= 1048576
 //@ pred s64(x) = ite(x >= 9223372036854775808, x - 18446744073709551616, x)
-//@ view viewBE64(m, i) = viewAt(m, i)*72057594037927936 + viewAt(m, i+1)*281474976710656 + viewAt(m, i+2)*1099511627776 + viewAt(m, i+3)*4294967296 + viewAt(m, i+4)*16777216 + viewAt(m, i+5)*65536 + viewAt(m, i+6)*256 + viewAt(m, i+7)
+//@ pred viewBE64(m, i) = viewAt(m, i)*72057594037927936 + viewAt(m, i+1)*281474976710656 + viewAt(m, i+2)*1099511627776 + viewAt(m, i+3)*4294967296 + viewAt(m, i+4)*16777216 + viewAt(m, i+5)*65536 + viewAt(m, i+6)*256 + viewAt(m, i+7)
 
 //@ func (*Message).FlushFrame
 //@   props C01 C09 C14
